@@ -192,9 +192,10 @@ def describe_case(case):
 
 # ------------------------------------------------------------------------------------------
 
-def _install(sim, bufsize):
-    simos = simfs.SimOS(sim)
-    fac = _TempFactory(sim, simos, bufsize)
+def _install(sim, bufsize, fac=None):
+    if fac is None:
+        simos = simfs.SimOS(sim)
+        fac = _TempFactory(sim, simos, bufsize)
     iou.TemporaryFile = fac
     iou.os = _OsProxy(sim)
     return fac
@@ -248,7 +249,7 @@ def run_case(case):
         sim = simfs.Sim(fs, simfs.Plan(), None, blksize=8192)
         reps.append({'cfg': rc, 'sim': sim, 'f': None, 'rolled_at': None})
     for rp in reps:
-        _install(rp['sim'], rp['cfg']['bufsize'])
+        rp['fac'] = _install(rp['sim'], rp['cfg']['bufsize'])
         rp['f'] = cls(max_size=rp['cfg']['max_size'])
     touched_before_roll = False
     nontriv = False
@@ -271,18 +272,19 @@ def run_case(case):
             want = _do(ref, op, text, ref_len)
             log.add('op', i, name, repr(want)[:200])
             for ri, rp in enumerate(reps):
-                _install(rp['sim'], rp['cfg']['bufsize'])
+                _install(rp['sim'], rp['cfg']['bufsize'], rp['fac'])
                 f = rp['f']
-                if rp['cfg'].get('roll_at') == i and not f._rolled:
+                # "has rolled over" is observed at the seam (a temporary file was requested), not through
+                # a private attribute of the object
+                if rp['cfg'].get('roll_at') == i and not rp['fac'].made:
                     if rp['cfg'].get('roll_how') == 'fileno':
                         f.fileno()
                     else:
                         f.rollover()
                     out.fault('scheduler_rollover')
-                was_rolled = f._rolled
                 got = _do(f, op, text, ref_len)
                 steps += 1
-                if f._rolled and rp['rolled_at'] is None:
+                if rp['fac'].made and rp['rolled_at'] is None:
                     rp['rolled_at'] = i
                     if i > 0:
                         out.probe('rollover_mid_history')
@@ -304,7 +306,7 @@ def run_case(case):
                         return _fail(out, log, 'content-diverges', i, case, ri, op, g, ('ok', ref.getvalue()), steps)
         # end: same content and position
         for ri, rp in enumerate(reps):
-            _install(rp['sim'], rp['cfg']['bufsize'])
+            _install(rp['sim'], rp['cfg']['bufsize'], rp['fac'])
             g = _do(rp['f'], ['getvalue'], text, 0)
             if g != ('ok', ref.getvalue()):
                 return _fail(out, log, 'content-diverges', len(case['ops']), case, ri, ['getvalue'], g,
